@@ -176,12 +176,14 @@ theorem C04_counterexample_timestamp_forced_fail_generates :
     Bad Cfg.fixed (pj [tg2]) [w0, .inv 0 .force { env 10 with failAt := some 1 }] 0 tg2 := by decide
 
 /-- (REPAIRED by fix M; was what TS2 left of "the marker is moved by every check") a check that
-ends in "up to date" while no marker exists (here: after a `--force` run at 10) no longer creates
-one: the source written with mtime 15 is compared with the generates file (10) alone and rebuilt —
-the former witness is no longer bad, and no marker exists after the up-to-date check. -/
+ends in "up to date" while no marker exists (here: the generates file, written at 10 by hand, vouches
+for a task that has no marker — since F8F a `--force` run leaves one, so the former witness starts
+differently) no longer creates one: the source written with mtime 15 is compared with the generates
+file (10) alone and rebuilt — the history is not bad, and no marker exists after the up-to-date check. -/
 theorem C04_timestamp_marker_created_fixed :
-    ¬ Bad Cfg.fixed (pj [tg]) [w0, .inv 0 .force (env 10), run 0 20, .op (.write 0 [2] 15)] 0 tg ∧
-    (runHist Cfg.fixed hId (pj [tg]) [w0, .inv 0 .force (env 10), run 0 20] State.empty).1.marks = [] := by decide
+    ¬ Bad Cfg.fixed (pj [tg]) [w0, .op (.write 1 [9] 10), run 0 20, .op (.write 0 [2] 15)] 0 tg ∧
+    (invoke Cfg.fixed hId (pj [tg]) 0 .run (env 20) (runHist Cfg.fixed hId (pj [tg]) [w0, .op (.write 1 [9] 10)] State.empty).1).2.skipped = true ∧
+    (runHist Cfg.fixed hId (pj [tg]) [w0, .op (.write 1 [9] 10), run 0 20] State.empty).1.marks = [] := by decide
 
 /-- (open, same root) the generates file is rewritten by something else (another task, an editor)
 after the source was edited. -/
@@ -306,13 +308,14 @@ theorem inv_step (hd : KeysDistinct pr) (st : Step) (s : State) (ha : Allowed st
         · -- cancelled at the prompt: `statusOnError`, no attempt
           cases m with
           | force =>
-            rw [invoke_force Cfg.fixed H pr htj, runBody_declined Cfg.fixed H pr j tj e s hdec]
-            apply inv_of_cancel pr hd hinv htj (onError_log tj s)
+            obtain ⟨hclog, _, hcother, _⟩ := forceStart_effect H pr tj e s
+            rw [invoke_force Cfg.fixed H pr htj, runBody_declined Cfg.fixed H pr j tj e _ hdec]
+            apply inv_of_cancel pr hd hinv htj (by rw [onError_log, hclog])
             · intro x hx
               rw [onError_sums]
               by_cases hcs : Cs tj
-              · rw [if_pos hcs, aget_adel_ne _ (fun e => hx hcs e.symm)]
-              · rw [if_neg hcs]
+              · rw [if_pos hcs, aget_adel_ne _ (fun e => hx hcs e.symm)]; exact hcother x hx
+              · rw [if_neg hcs]; exact hcother x hx
             · intro hcs
               rw [onError_sums, if_pos hcs]; simp
           | run =>
@@ -346,19 +349,22 @@ theorem inv_step (hd : KeysDistinct pr) (st : Step) (s : State) (ha : Allowed st
         cases m with
         | force =>
           rw [invoke_force Cfg.fixed H pr htj]
-          obtain ⟨ok, hlog, hok, hfail⟩ := runBody_effect Cfg.fixed H pr j tj e s hpass
+          obtain ⟨hclog, hcfiles, hcother, hckey⟩ := forceStart_effect H pr tj e s
+          obtain ⟨ok, hlog, hok, hfail⟩ :=
+            runBody_effect Cfg.fixed H pr j tj e (forceStart H pr tj e s) hpass
+          rw [hclog, hcfiles] at hlog
           apply inv_of_effect pr hd hinv htj _ _ ok hlog
           · intro x hx
             cases ok with
-            | true => rw [(hok rfl).1]
+            | true => rw [(hok rfl).1]; exact hcother x hx
             | false =>
               rw [(hfail rfl).1]
               by_cases hcs : Cs tj
-              · rw [if_pos hcs, aget_adel_ne _ (fun e => hx hcs e.symm)]
-              · rw [if_neg hcs]
+              · rw [if_pos hcs, aget_adel_ne _ (fun e => hx hcs e.symm)]; exact hcother x hx
+              · rw [if_neg hcs]; exact hcother x hx
           · intro hcs
             cases ok with
-            | true => exact Or.inl ⟨rfl, Or.inr (by rw [(hok rfl).1])⟩
+            | true => exact Or.inl ⟨rfl, by rw [(hok rfl).1]; exact hckey hcs⟩
             | false => exact Or.inr ⟨rfl, by rw [(hfail rfl).1, if_pos hcs]; simp⟩
         | run =>
           cases hce : checkErr tj e s.files with
@@ -791,8 +797,14 @@ theorem invTs_step (hd : TsKeysDistinct pr) {i : Nat} {t : Task} (ht : pr.tasks[
           have hle : ∀ m, aget s.marks (tsKey tj) = some m → m ≤ e.now := fun m hm => (hinv' m hm).1
           cases m with
           | force =>
-            rw [invoke_force Cfg.fixed H pr htj]
-            exact invTs_body H pr hts e hk s hle
+            rw [invoke_force Cfg.fixed H pr htj, forceStart_ts H pr hts.1]
+            apply invTs_body H pr hts e hk
+            intro m hm
+            rw [isUpToDate_ts H pr hts] at hm
+            simp only at hm
+            rcases tsCheck_marker_after tj e.now s with h | ⟨_, hs⟩
+            · rw [h] at hm; cases hm; exact Nat.le_refl _
+            · rw [hs] at hm; exact hle m hm
           | run =>
             rw [invoke_run Cfg.fixed H pr htj e s (checkErr_timestamp e s.files hts.1)]
             split
